@@ -96,6 +96,13 @@ def check_preset(r, lib, preset, crate, expect_prefix_from_key_rs):
          "text_identifier %r is a key %s %s recognises (%s)" % (ti, crate, ver, keys.get(ti)) if ok else
          "text_identifier %r is not among the special keys %s %s recognises %s: text content bound to it is silently dropped" % (ti, crate, ver, sorted(keys)),
          site=site, key="A8.text-key|%s|%s|%s@%s" % (preset, ti, crate, ver))
+    dv = vals.get("derive")
+    toks = [x.strip() for x in dv.split(",")] if isinstance(dv, str) else None
+    known = {"Serialize", "Deserialize", "Debug", "Clone", "PartialEq", "Eq", "Hash", "Default", "PartialOrd", "Ord"}
+    ok = toks is not None and "Deserialize" in toks and all(x in known for x in toks)
+    r.ob("A8.derive-default", "Options::%s" % preset, ok, "default derive list %r names derive macros in scope and includes Deserialize" % dv if ok else
+         "default derive list %r: every entry must be a derive macro that `use serde::{Deserialize, Serialize}` / std provide, and Deserialize is needed by from_str" % (dv,),
+         site=site, key="A8.derive|%s|%s" % (preset, dv))
     ap = vals.get("attribute_prefix")
     if expect_prefix_from_key_rs:
         chars = pushed_prefix_chars(d)
